@@ -51,6 +51,7 @@ type Options struct {
 	RootPaths      []string // overrides Roots when set
 	Proxy          bool     // gRPC: put a cuttable TCP proxy between client and server
 	NoValid        bool     // gRPC: hand the configuration to the server as it is (the server application does not validate it)
+	OpenCtxDone    bool     // gRPC: the context given to external.Open is cancelled as soon as Open has returned
 }
 
 // Env is one opened database.
@@ -161,11 +162,17 @@ func Open(o Options) (*Env, error) {
 				return nil, err
 			}
 		}
-		db, err := external.Open(context.Background(), clientAddr)
+		octx, ocancel := context.WithCancel(context.Background())
+		db, err := external.Open(octx, clientAddr)
 		if err != nil {
+			ocancel()
 			cancel()
 			return nil, err
 		}
+		if o.OpenCtxDone {
+			ocancel()
+		}
+		_ = ocancel // otherwise the context lives as long as the process
 		e.DB = db
 	}
 	return e, nil
